@@ -555,7 +555,7 @@ def drive_cg(ck, rng, dn, thorough):
                             continue
                         if (mkind.startswith("jacobi") and not jacobi_ok) or (mkind == "approx-inverse" and not minv_ok):
                             continue
-                        x0kind = ("none", "random", "zero", "near-solution", "sparse-guess")[int(rng.integers(5))]
+                        x0kind = ("none", "random", "zero", "near-solution", "sparse-guess", "exact-solution")[int(rng.integers(6))]
                         tol = (1e-5, 1e-5, 1e-3, 1e-8 if dn == "f64" else 1e-4)[int(rng.integers(4))]
                         bscale = float(rng.choice([1e-3, 1.0, 1e3]))
                         b = rnd(rng.standard_normal((n, 1)) * bscale, dn)
@@ -586,6 +586,15 @@ def drive_cg(ck, rng, dn, thorough):
                             x0 = tt(g0, dn)
                         else:
                             x0 = tt(np.linalg.solve(A, b) * (1 + 1e-3 * rng.standard_normal((n, 1))), dn)
+                        if x0kind == "exact-solution":
+                            # a warm start that already solves the system: the right-hand side is A x0 as the operator itself computes
+                            # it, so the initial residual is exactly zero
+                            g0 = rng.integers(-4, 5, (n, 1)).astype(np.float64)
+                            if not g0.any():
+                                g0[0, 0] = 1.0
+                            x0 = tt(g0 * bscale / smax, dn)
+                            with torch.no_grad():
+                                b = (Aop @ x0).to_dense().double().numpy().reshape(n, 1) if hasattr(Aop @ x0, "to_dense") else (Aop @ x0).double().numpy().reshape(n, 1)
                         x0_before = None if x0 is None else x0.clone()
                         cfg = "default" if tol == 1e-5 else f"tol={tol:g}"
                         regime = f"{dn}/{layout}/M:{mkind}/x0:{x0kind}/{cfg}"
@@ -880,7 +889,7 @@ def run(ck):
     for mk in ("none", "jacobi-dense", "jacobi-same-layout", "approx-inverse"):
         ck.require(f"cg/M:{mk}")
     ck.require("ls/square-tiny-entries")
-    for xk in ("none", "random", "zero", "near-solution", "sparse-guess"):
+    for xk in ("none", "random", "zero", "near-solution", "sparse-guess", "exact-solution"):
         ck.require(f"cg/x0:{xk}")
     for a in LAYOUTS:
         for b in LAYOUTS:
